@@ -492,7 +492,7 @@ def run():
         inst = inst or P.gen_instance(rng, max_rows=7, min_rows=5)
         cases.append((pg, [inst, permuted(rng, inst)]))
     for _lbl, pg in E.directed_fixed():          # replays of repaired findings: nothing excuses a recurrence
-        inst = P.gen_instance(rng, max_rows=7, min_rows=5)
+        inst = pg.meta.get("instance") or P.gen_instance(rng, max_rows=7, min_rows=5)
         cases.append((pg, [inst, permuted(rng, inst)]))
     for _ in range(ck.n(260, 4000) * (3 if broken else 1)):
         pg = g.program()
